@@ -33,13 +33,14 @@ pub fn isolated(which: Which, with_db: bool, c: &Conn) -> Result<Vec<Vec<String>
 }
 
 pub fn run(ctx: &mut Ctx) {
-    let n = ctx.scale(24_000, 800_000, 6);
+    let n = ctx.scale(24_000, 800_000, 2);
     for s in 0..n {
         if !ctx.mine(s) {
             continue;
         }
         let mut r = ctx.rng_global(7, s);
-        let nconn = 2 + r.usize(7);
+        // the interpreted run (Miri) costs ~0.3 s per packet: two small scenarios, two mixes
+        let nconn = if ctx.miri() { 2 + r.usize(2) } else { 2 + r.usize(7) };
         let base_id = s * 16;
         // half of the scenarios put all connections between a small set of hosts (same client
         // address with different ports, same server address/port), the other half use unrelated hosts
@@ -77,7 +78,7 @@ pub fn run(ctx: &mut Ctx) {
             if failed {
                 continue;
             }
-            for mix in MIXES.iter().take(if ctx.quick() { 3 + (s % 3) as usize } else { 5 }) {
+            for mix in MIXES.iter().take(if ctx.miri() { 2 } else if ctx.quick() { 3 + (s % 3) as usize } else { 5 }) {
                 let trace = scenario::interleave(&mut r, &conns, *mix);
                 // half of the scenarios run the interleaving on an analyzer whose configured
                 // connection capacity is exactly the number of connections ("within the configured
